@@ -42,7 +42,15 @@ func genC15(g *simrt.Tape, tier string) any {
 			rs := ReqSc{Version: 4, Option: g.Draw(3), Hdr: genHdr(g)}
 			ni := 1 + g.Draw(5)
 			for i := 0; i < ni; i++ {
-				rs.Items = append(rs.Items, ItemSc{Tok: c15Actions[g.Draw(len(c15Actions))]})
+				it := ItemSc{Tok: c15Actions[g.Draw(len(c15Actions))]}
+				// optional elements of a batch item that must not change what the placeholder does
+				switch g.Draw(6) {
+				case 0:
+					it.Ext = "plain"
+				case 1:
+					it.NoID = true
+				}
+				rs.Items = append(rs.Items, it)
 			}
 			cn.Reqs = append(cn.Reqs, rs)
 		}
@@ -232,6 +240,21 @@ func c15Floor(tier string) []*C15Sc {
 					{Reqs: []ReqSc{{Version: 4, Items: []ItemSc{{Tok: a}, {Tok: "pr"}}}, {Version: 4, Items: []ItemSc{{Tok: "pr"}, {Tok: b}}}}},
 					{Reqs: []ReqSc{{Version: 4, Items: []ItemSc{{Tok: "y1,pr"}, {Tok: b}, {Tok: "pr"}}}}},
 				}})
+			}
+		}
+	}
+	// optional item elements (non-critical message extension, no batch item id) on the storing, clearing and reading item
+	for mask := 0; mask < 16; mask++ {
+		for _, noid := range []bool{false, true} {
+			items := []ItemSc{{Tok: "pw"}, {Tok: "pr"}, {Tok: "pc"}, {Tok: "pr,pw,pr"}}
+			for i := range items {
+				if mask&(1<<i) != 0 {
+					items[i].Ext = "plain"
+				}
+				items[i].NoID = noid
+			}
+			for _, direct := range []bool{true, false} {
+				out = append(out, &C15Sc{Direct: direct, Conns: []C15Conn{{Reqs: []ReqSc{{Version: 4, Items: append(items, ItemSc{Tok: "pr"})}, {Version: 4, Items: []ItemSc{{Tok: "pr"}}}}}}})
 			}
 		}
 	}
